@@ -1,21 +1,22 @@
 (* driver.ml — runs the extracted Coq model on a case file and prints one canonical result
    line per case (same text as the Rust harness prints for the implementation). *)
+module ZA = Z
 open Model
 
-let rec pos_of_z (z : Z.t) : positive =
-  if Z.equal z Z.one then XH
-  else if Z.testbit z 0 then XI (pos_of_z (Z.shift_right z 1))
-  else XO (pos_of_z (Z.shift_right z 1))
-let n_of_z (z : Z.t) : n = if Z.sign z = 0 then N0 else Npos (pos_of_z z)
+let rec pos_of_z (z : ZA.t) : positive =
+  if ZA.equal z ZA.one then XH
+  else if ZA.testbit z 0 then XI (pos_of_z (ZA.shift_right z 1))
+  else XO (pos_of_z (ZA.shift_right z 1))
+let n_of_z (z : ZA.t) : n = if ZA.sign z = 0 then N0 else Npos (pos_of_z z)
 let rec z_of_pos = function
-  | XH -> Z.one
-  | XO p -> Z.shift_left (z_of_pos p) 1
-  | XI p -> Z.succ (Z.shift_left (z_of_pos p) 1)
-let z_of_n = function N0 -> Z.zero | Npos p -> z_of_pos p
-let n_of_int i = n_of_z (Z.of_int i)
-let int_of_n x = Z.to_int (z_of_n x)
-let n_of_string s = n_of_z (Z.of_string s)
-let string_of_n x = Z.to_string (z_of_n x)
+  | XH -> ZA.one
+  | XO p -> ZA.shift_left (z_of_pos p) 1
+  | XI p -> ZA.succ (ZA.shift_left (z_of_pos p) 1)
+let z_of_n = function N0 -> ZA.zero | Npos p -> z_of_pos p
+let n_of_int i = n_of_z (ZA.of_int i)
+let int_of_n x = ZA.to_int (z_of_n x)
+let n_of_string s = n_of_z (ZA.of_string s)
+let string_of_n x = ZA.to_string (z_of_n x)
 
 let hex (bs : n list) : string =
   if bs = [] then "-" else String.concat "" (List.map (fun b -> Printf.sprintf "%02x" (int_of_n b)) bs)
@@ -51,6 +52,60 @@ let len_ser_s style nn = res_s hex (len_ser (style_of_string style) nn)
 let len_de_s style bs =
   res_s (fun (k, r) -> string_of_n k ^ " " ^ hex r) (len_de (style_of_string style) bs)
 
+let z_of_coqz = function Z0 -> ZA.zero | Zpos p -> z_of_pos p | Zneg p -> ZA.neg (z_of_pos p)
+let coqz_of_z (z : ZA.t) = if ZA.sign z = 0 then Z0 else if ZA.sign z > 0 then Zpos (pos_of_z z) else Zneg (pos_of_z (ZA.neg z))
+
+let enc_of_string = function
+  | "Default" -> EDefault | "BigEndian" -> EBigEndian | "Bcd" -> EBcd | "Hex" -> EHex
+  | "Utf8" -> EUtf8 | "Custom" -> ECustom | "ReceiptNo" -> EReceiptNo
+  | s -> failwith ("enc " ^ s)
+let prim_of_string = function
+  | "u8" -> PInt (n_of_int 1) | "u16" -> PInt (n_of_int 2) | "u32" -> PInt (n_of_int 4)
+  | "u64" | "usize" -> PInt (n_of_int 8)
+  | "String" -> PString | "DateTime" -> PDateTime | "Bytes" -> PBytes
+  | s -> failwith ("prim " ^ s)
+
+let show_str (s : n list) =
+  if s = [] then "s:-" else "s:" ^ String.concat "." (List.map (fun c -> Printf.sprintf "%x" (int_of_n c)) s)
+let parse_str (v : string) : n list =
+  let body = String.sub v 2 (String.length v - 2) in
+  if body = "-" then [] else List.map (fun c -> n_of_int (int_of_string ("0x" ^ c))) (String.split_on_char '.' body)
+
+let rec show_value = function
+  | VInt k -> string_of_n k
+  | VStr s -> show_str s
+  | VBytes b -> "b:" ^ hex b
+  | VDate (y, mo, d, h, mi, s) ->
+      Printf.sprintf "d:%s,%s,%s,%s,%s,%s" (ZA.to_string (z_of_coqz y)) (string_of_n mo) (string_of_n d)
+        (string_of_n h) (string_of_n mi) (string_of_n s)
+  | VNone -> "None"
+  | VSome v -> "Some(" ^ show_value v ^ ")"
+  | VList l -> "[" ^ String.concat ";" (List.map show_value l) ^ "]"
+  | VRec l -> "{" ^ String.concat ";" (List.map show_value l) ^ "}"
+
+let parse_prim_value (v : string) : value =
+  if String.length v >= 2 && v.[1] = ':' then begin
+    match v.[0] with
+    | 's' -> VStr (parse_str v)
+    | 'b' -> VBytes (unhex (String.sub v 2 (String.length v - 2)))
+    | 'd' ->
+        (match String.split_on_char ',' (String.sub v 2 (String.length v - 2)) with
+         | [y; mo; d; h; mi; s] ->
+             VDate (coqz_of_z (ZA.of_string y), n_of_string mo, n_of_string d, n_of_string h, n_of_string mi, n_of_string s)
+         | _ -> failwith "date")
+    | _ -> failwith ("value " ^ v)
+  end else VInt (n_of_string v)
+
+let p_enc_s e p v = res_s hex (prim_enc (enc_of_string e) (prim_of_string p) v)
+let p_dec_s e p bs =
+  res_s (fun (v, r) -> show_value v ^ " " ^ hex r) (prim_dec (enc_of_string e) (prim_of_string p) bs)
+let tag_enc_s big t = "Ok " ^ hex (tag_enc big t)
+let tag_dec_s big bs = res_s (fun (t, r) -> string_of_n t ^ " " ^ hex r) (tag_dec big bs)
+let all_strings k suffix (f : n list -> unit) =
+  for i = 0 to (1 lsl (8 * k)) - 1 do
+    f (List.init k (fun j -> n_of_int ((i lsr (8 * (k - 1 - j))) land 255)) @ suffix)
+  done
+
 let () =
   let ic = if Array.length Sys.argv > 1 && Sys.argv.(1) <> "-" then open_in Sys.argv.(1) else stdin in
   let oc = if Array.length Sys.argv > 2 then open_out Sys.argv.(2) else stdout in
@@ -73,6 +128,18 @@ let () =
               let bs = List.init k (fun j -> n_of_int ((i lsr (8 * (k - 1 - j))) land 255)) in
               emit (len_de_s f.(1) (bs @ suffix))
             done
+        | "p_enc" -> emit (p_enc_s f.(1) f.(2) (parse_prim_value f.(3)))
+        | "p_dec" -> emit (p_dec_s f.(1) f.(2) (unhex f.(3)))
+        | "p_enc_range" ->
+            let a = ZA.of_string f.(3) and b = ZA.of_string f.(4) in
+            let k = ref a in
+            while ZA.leq !k b do emit (p_enc_s f.(1) f.(2) (VInt (n_of_z !k))); k := ZA.succ !k done
+        | "p_dec_all" -> all_strings (int_of_string f.(3)) [] (fun bs -> emit (p_dec_s f.(1) f.(2) bs))
+        | "tag_enc" -> emit (tag_enc_s (f.(1) = "1") (n_of_string f.(2)))
+        | "tag_enc_all" -> for t = 0 to 65535 do emit (tag_enc_s (f.(1) = "1") (n_of_int t)) done
+        | "tag_dec" -> emit (tag_dec_s (f.(1) = "1") (unhex f.(2)))
+        | "tag_dec_all" ->
+            all_strings (int_of_string f.(2)) (unhex f.(3)) (fun bs -> emit (tag_dec_s (f.(1) = "1") bs))
         | other -> failwith ("unknown case kind " ^ other)
       end
     done
